@@ -3,7 +3,8 @@
    Model: coq/c17/ErrPos.v (cli/error.go), coq/c17/Window.v (cli/inputs.go); vocabulary: coq/c17/Spec.v.
    [swidth] is go-runewidth's StringWidth, universally quantified (no hypothesis on it is needed). *)
 From Coq Require Import ZArith List NArith String.
-From Verif Require Import common.Sexp c17.ErrPos c17.Spec c17.Window c17.ErrPosProofs c17.WindowProofs c17.Refute.
+From Verif Require Import common.Sexp c17.ErrPos c17.Spec c17.Window c17.Oracle c17.ErrPosProofs c17.WindowProofs
+  c17.OracleProofs c17.Refute c17.Yaml c17.YamlProofs.
 Import ListNotations.
 Open Scope Z_scope.
 
@@ -87,10 +88,83 @@ Theorem C17_pipe_window_cr_refuted : exists c steps rerr E,
 Proof. exists cr_input, cr_steps, 20012, cr_E. split; [exact cr_chunking | exact cr_pipe_wrong]. Qed.
 Print Assumptions C17_pipe_window_cr_refuted.
 
+(* 3'. unexpected EOF (io.ErrUnexpectedEOF): the offending position is the end of the input.
+      Seekable: pos = Seek(0, SeekEnd), getContents' loop, Error() asks for len(contents)+1.
+      Non-seekable: contents = buf.String(), everything has been read (rerr = len c); the delivered values
+      consumed p_i < len c bytes (a truncated document follows), read-ahead arbitrary. *)
+Theorem C17_seekable_window_eof : forall swidth c, crlf_only c = true ->
+  report_of swidth (seek_report c None) = getLineByOffset swidth c (zlen c + 1).
+Proof. exact seek_window_eof_correct. Qed.
+Print Assumptions C17_seekable_window_eof.
+
+Theorem C17_pipe_window_eof : forall swidth c steps, chunking_eof_ok c steps -> crlf_only c = true ->
+  let start := p_start (pipe_run c steps) in
+  let '(ex, line, col) := report_of swidth (pipe_report c steps (zlen c) None) in
+  0 <= start < zlen c /\ line = spec_line c (List.length c - 1) /\
+  (ex, col) = (let '(ex', _, col') := getLineByOffset swidth (zdrop start c) (zlen (zdrop start c) + 1)
+               in (ex', col')).
+Proof. exact pipe_window_eof_kept. Qed.
+Print Assumptions C17_pipe_window_eof.
+
+Theorem C17_pipe_window_eof_exact : forall swidth c steps, chunking_eof_ok c steps -> crlf_only c = true ->
+  let start := p_start (pipe_run c steps) in
+  (start = 0 \/ start + 53 <= zlen c) ->
+  report_of swidth (pipe_report c steps (zlen c) None) = getLineByOffset swidth c (zlen c + 1).
+Proof. exact pipe_window_eof_exact. Qed.
+Print Assumptions C17_pipe_window_eof_exact.
+
+(* 3''. The executable oracle that judges the IMPLEMENTATION's stderr in the correspondence (Oracle.pos_chk /
+      pos_eof_chk, run as extracted code by checks/c17.py) is literally the specification used above:
+      with ctx = true it decides pos_ok / pos_ok_eof; with ctx = false (non-seekable transport, where only part of
+      the line may be in the window) it decides the same specification without the two clauses about the amount
+      of quoted context (pos_ok_w, implied by pos_ok). *)
+Theorem C17_oracle_is_spec : forall swidth c o ex line col,
+  pos_chk swidth true c o ex line col = true <-> pos_ok swidth c o (ex, line, col).
+Proof. exact pos_chk_iff. Qed.
+Print Assumptions C17_oracle_is_spec.
+
+Theorem C17_oracle_eof_is_spec : forall swidth c ex line col,
+  pos_eof_chk swidth true c ex line col = true <-> pos_ok_eof swidth c (ex, line, col).
+Proof. exact pos_eof_chk_iff. Qed.
+Print Assumptions C17_oracle_eof_is_spec.
+
+Theorem C17_oracle_weak_is_spec : forall swidth c o ex line col,
+  (pos_chk swidth false c o ex line col = true <-> pos_ok_w swidth c o (ex, line, col)) /\
+  (pos_eof_chk swidth false c ex line col = true <-> pos_ok_eof_w swidth c (ex, line, col)) /\
+  (pos_ok swidth c o (ex, line, col) -> pos_ok_w swidth c o (ex, line, col)).
+Proof. exact oracle_weak. Qed.
+Print Assumptions C17_oracle_weak_is_spec.
+
 (* 4. lexer_offset_token: correspondence level (the lexer is modelled under C08/C09): checked on generated
       bad queries by the harness (Offset/Token identify bytes of the source, position of the injected token).
    5. --stream: encoding/json's Token() reports offsets that are not absolute; the model takes the reported
       offset as a parameter, so theorems 2 and 3 say nothing about --stream (finding "stream-offset"). *)
+
+(* 6. YAML.  go-yaml is external: it reports yaml_mark_t{index, line, column} and advances index/column once per
+      CHARACTER.  gojq's side (yamlParseError.Error): getLineByOffset(contents, Index+1), i.e. Index is used as a
+      0-based BYTE offset.  Proved: the report is correct for byte number Index, and the rendering is `render` of
+      it; hence it is correct for go-yaml's character number Index whenever the text before it is ASCII
+      ([char_offset] = byte offset of a character number).  With multi-byte text before the error it is not
+      (finding "yaml-char-index"). *)
+Theorem C17_yaml_report_is_for_byte : forall swidth contents index, (index < List.length contents)%nat ->
+  pos_ok swidth contents index (getLineByOffset swidth contents (Z.of_nat index + 1)) /\
+  yaml_error_header swidth (codes "<stdin>") contents (Z.of_nat index) =
+    (let '(ls, line, col) := getLineByOffset swidth contents (Z.of_nat index + 1) in
+     render (codes "invalid yaml: ") (codes "<stdin>") contents true (codes "<stdin>") ls line col).
+Proof. exact yaml_report_is_for_byte. Qed.
+Print Assumptions C17_yaml_report_is_for_byte.
+
+Theorem C17_yaml_report_ascii : forall swidth contents index, (index < List.length contents)%nat ->
+  forallb is_ascii (firstn index contents) = true ->
+  pos_ok swidth contents (char_offset contents index) (getLineByOffset swidth contents (Z.of_nat index + 1)).
+Proof. exact yaml_report_ascii. Qed.
+Print Assumptions C17_yaml_report_ascii.
+
+Theorem C17_yaml_char_index_refuted : forall swidth,
+  char_offset yaml_wide 9 = 13%nat /\
+  ~ pos_ok swidth yaml_wide (char_offset yaml_wide 9) (getLineByOffset swidth yaml_wide (Z.of_nat 9 + 1)).
+Proof. exact yaml_wide_wrong. Qed.
+Print Assumptions C17_yaml_char_index_refuted.
 
 (* regression example D7: on the reads observed for 164 documents of 100 bytes + {"b": tru } + 1 2 3, the
    arithmetic before e216f69 (whole buffer dropped) reports line 168 with an empty excerpt; the current
